@@ -12,3 +12,11 @@ Definition schema := list (string * list string).
 
 (* a migration step: its statements, each as (raw SQL text, parsed form) *)
 Definition step := list (string * stmt).
+
+(* which of the three proposed repairs the code contains (read off the source by the translator;
+   a wrong reading can only make the correspondence fail, never pass) *)
+Record variant := mkvariant {
+  v_commit : bool;      (* Migrator.migrate commits after stamping *)
+  v_insert : bool;      (* revision_id setter inserts a row when the UPDATE matched none *)
+  v_stamp_new : bool    (* open_database stamps a file it has just created *)
+}.
